@@ -1919,12 +1919,22 @@ namespace bloch::runtime {
         // Fields that refer to other objects are dropped first: their destructors may still reach
         // this object (a destructor that stored 'this' in its child) and must find its qubits
         // allocated - not already released and handed to the next declaration.
-        for (size_t i = 0; i < obj->fields.size(); ++i) {
-            if (obj->fields[i].type == Value::Type::Object ||
-                obj->fields[i].type == Value::Type::ObjectArray) {
-                Value dropped = std::move(obj->fields[i]);
-                obj->fields[i] = Value{};
+        // Each reference is moved out of its slot before it is dropped, one at a time: a destructor
+        // run by the drop may write this object's fields again (it can still reach it), and must
+        // find every slot a valid value - never one the vector is in the middle of destroying.
+        // What such a destructor stores is dropped in a further round.
+        for (int round = 0; round < 1000; ++round) {
+            bool droppedAny = false;
+            for (size_t i = 0; i < obj->fields.size(); ++i) {
+                if (obj->fields[i].type == Value::Type::Object ||
+                    obj->fields[i].type == Value::Type::ObjectArray) {
+                    Value dropped = std::move(obj->fields[i]);
+                    obj->fields[i] = Value{};
+                    droppedAny = droppedAny || dropped.objectValue || !dropped.objectArray.empty();
+                }
             }
+            if (!droppedAny)
+                break;
         }
         // Reset tracked qubits
         if (obj->cls) {
